@@ -325,7 +325,8 @@ func genC14(r *rand.Rand, w *W) [][]string {
 		switch r.Intn(4) {
 		case 0:
 			ops = append(ops, append([]string{"hmatch", pick(r, []string{"", "*", ":", ":80", "a.example.com:80a", "[::1]:80", "[::1", "::1]",
-				"xn--bcher-kva.example.com", "EXAMPLE.com.", "a.example.com:", "é.example.com", "\xff.example.com", "a..example.com", "[a.example.com]"})}, list()...))
+				"xn--bcher-kva.example.com", "EXAMPLE.com.", "a.example.com:", "é.example.com", "\xff.example.com", "a..example.com", "[a.example.com]",
+				"[", "[:", "[:8080", "]", "[]", "[]:80", "[::1]:80a", "[::1]x", "[::1]:http", ":::", "[[::1]]"})}, list()...))
 		default:
 			probe(false)
 		}
